@@ -7,44 +7,59 @@ import (
 	verif "github.com/uber/kraken/zzverif"
 )
 
-// verifChunkReader is a stream that hands out at most chunk bytes per Read
-// (like a pipe or a socket does), never failing before the data is exhausted.
+// verifChunkReader is a stream that hands out an arbitrary number of bytes
+// per Read (at least one, at most what is asked for and what is left) — as a
+// pipe or a socket does; io.Reader allows any such short read. The count of
+// every single Read is a symbolic choice. The end of the data is reported
+// either together with the last bytes (n > 0, io.EOF) or by a separate
+// (0, io.EOF), both allowed by io.Reader.
 type verifChunkReader struct {
-	data  []byte
-	off   int
-	chunk int
+	data        []byte
+	off         int
+	eofWithData bool
+	shortReads  int
 }
 
 func (r *verifChunkReader) Read(p []byte) (int, error) {
 	if r.off >= len(r.data) {
 		return 0, io.EOF
 	}
-	n := len(p)
-	if n > r.chunk {
-		n = r.chunk
+	if len(p) == 0 {
+		return 0, nil
 	}
-	if n > len(r.data)-r.off {
-		n = len(r.data) - r.off
+	max := len(p)
+	if max > len(r.data)-r.off {
+		max = len(r.data) - r.off
+	}
+	n := 1 + verif.Choice("read_count", max)
+	if n < len(p) && r.off+n < len(r.data) {
+		r.shortReads++
 	}
 	copy(p, r.data[r.off:r.off+n])
 	r.off += n
+	if r.eofWithData && r.off == len(r.data) {
+		return n, io.EOF
+	}
 	return n, nil
 }
 
 // VerifMetaInfoShortReadStream: the stream generator must describe the blob
-// exactly also when the stream returns short reads (io.Reader allows them).
+// exactly also when the stream returns short reads: every split of the blob
+// into Read results, every piece length from 1 to one more than the blob
+// length, both ways of reporting the end of the stream.
 func VerifMetaInfoShortReadStream() {
-	d, blob := verifC02Blob()
-	n := int64(len(blob))
-	p := int64(verif.Len("piece_length", 1, int(n)+1))
-	if n == 0 {
-		return
-	}
-	chunk := verif.Len("chunk", 1, int(n))
-	m1, err1 := NewMetaInfo(d, &verifChunkReader{data: blob, chunk: chunk}, p)
+	d, err := NewSHA256DigestFromHex(verifC02Name)
+	verif.Assert("digest", err == nil)
+	nb := verif.Len("blob_len", 1, verif.Bound("short_read_blob_len", 4, 6))
+	blob := verif.Bytes("blob", nb)
+	n := int64(nb)
+	p := int64(verif.Len("piece_length", 1, nb+1))
+	r := &verifChunkReader{data: blob, eofWithData: verif.Choice("eof_with_last_bytes", 2) == 1}
+	m1, err1 := NewMetaInfo(d, r, p)
 	m2, err2 := NewMetaInfoFromBytes(d, blob, p)
 	verif.Assert("both-accepted", err1 == nil && err2 == nil)
-	verif.Cover("short-reads-inside-a-piece", int64(chunk) < p && int64(chunk) < n)
+	verif.Cover("short-read-inside-a-piece", r.shortReads > 0 && p > 1)
+	verif.Cover("several-pieces-with-short-reads", r.shortReads > 0 && n > p)
 	verifC02Check("stream", m1, d, blob, p)
 	verif.Assert("same-length", m1.Length() == m2.Length())
 	verif.Assert("same-piece-count", m1.NumPieces() == m2.NumPieces())
